@@ -480,8 +480,10 @@ def run_program(env, spec, rng, label, n_cases=None, extras=True, then_extras=0)
         if then_extras:  # a few more cases with an unexpected key on the same program
             for case in cases_for(spec, rng, then_extras, True, extra_prob=1.0):
                 check_case(env, prog, case, label + "+extra")
-        if len(env.samples) < 4 and rng.random() < 0.02:
-            env.sample({"label": label, "source": prog.loaded.source})
+        if len(env.samples) < 4 and k and rng.random() < 0.02:
+            d, out, log, ctor = observe(prog, case)
+            env.sample({"label": label, "source": prog.loaded.source, "case": case, "datum": d, "call_log": log, "constructor_calls": ctor,
+                        "outcome": out.brief(), "model": predict(spec, case, prog.order_mode, True, prog.static).brief()})
     finally:
         prog.flush(env)
         prog.close()
